@@ -11,11 +11,14 @@
 (***************************************************************************)
 EXTENDS Integers, Sequences, FiniteSets, TLC
 
-CONSTANTS Start, Last, MaxFails, Retries, Content   \* Content[h] = set of blob classes at DA height h ({} = nothing)
+CONSTANTS Start, Last, MaxFails, Retries, Content,  \* Content[h] = set of blob classes at DA height h ({} = nothing)
+          AdvanceOnGiveUp,   \* deviation: when the retries of a height are used up the cursor moves on all the same
+          FutureAsEmpty      \* deviation: "height from the future" is taken for "nothing at this height"
 
-VARIABLES cursor, attempt, fails, emitted, examined, waiting, last
+VARIABLES cursor, attempt, fails, emitted, examined, waiting, last,
+          avail     \* the DA layer's own height: heights above it do not exist yet
 
-vars == <<cursor, attempt, fails, emitted, examined, waiting, last>>
+vars == <<cursor, attempt, fails, emitted, examined, waiting, last, avail>>
 
 Heights == Start .. Last
 Genuine(b) == b.kind \in {"hdr", "data"}
@@ -23,38 +26,45 @@ Genuine(b) == b.kind \in {"hdr", "data"}
 Init ==
     /\ cursor = Start /\ attempt = 0 /\ fails = [h \in Heights |-> 0]
     /\ emitted = {} /\ examined = {} /\ waiting = TRUE /\ last = <<0, "none">>
+    /\ avail \in Start - 1 .. Last
 
 \* a signal (DA ticker, or "blobs found" self-signal) starts processing the cursor height
 Signal == /\ waiting /\ cursor <= Last + 1 /\ waiting' = FALSE /\ attempt' = 0
-          /\ UNCHANGED <<cursor, fails, emitted, examined, last>>
+          /\ UNCHANGED <<cursor, fails, emitted, examined, last, avail>>
 
-\* the height is not produced yet: return at once, keep the cursor, wait for the next signal
+\* the height is not produced yet: return at once, keep the cursor, wait for the next signal.
+\* The DA layer grows: a height above `avail` answers "from the future" until Grow has passed it.
 FetchFuture ==
-    /\ ~waiting /\ cursor > Last
+    /\ ~waiting /\ cursor > avail /\ cursor <= Last + 1
     /\ waiting' = TRUE /\ last' = <<cursor, "future">>
-    /\ UNCHANGED <<cursor, attempt, fails, emitted, examined>>
+    /\ cursor' = IF FutureAsEmpty /\ cursor <= Last THEN cursor + 1 ELSE cursor
+    /\ UNCHANGED <<attempt, fails, emitted, examined, avail>>
+
+Grow == /\ avail < Last /\ avail' = avail + 1
+        /\ UNCHANGED <<cursor, attempt, fails, emitted, examined, waiting, last>>
 
 \* a transient failure (listing or an id chunk): retry the same height, give up after Retries attempts
 FetchFail ==
-    /\ ~waiting /\ cursor <= Last /\ fails[cursor] < MaxFails
+    /\ ~waiting /\ cursor <= avail /\ fails[cursor] < MaxFails
     /\ fails' = [fails EXCEPT ![cursor] = @ + 1]
     /\ last' = <<cursor, "fail">>
     /\ IF attempt + 1 >= Retries THEN waiting' = TRUE /\ attempt' = 0 ELSE waiting' = FALSE /\ attempt' = attempt + 1
-    /\ UNCHANGED <<cursor, emitted, examined>>
+    /\ cursor' = IF AdvanceOnGiveUp /\ attempt + 1 >= Retries THEN cursor + 1 ELSE cursor
+    /\ UNCHANGED <<emitted, examined, avail>>
 
 \* success: nothing at this height, or every blob is classified (junk is skipped) and the cursor moves on
 FetchOk ==
-    /\ ~waiting /\ cursor <= Last
+    /\ ~waiting /\ cursor <= avail
     /\ emitted' = emitted \cup {b \in Content[cursor] : Genuine(b)}
     /\ examined' = examined \cup {cursor}
     /\ cursor' = cursor + 1
     /\ last' = <<cursor, "ok">>
     /\ attempt' = 0 /\ waiting' = FALSE        \* blobsFoundCh: go straight on to the next height
-    /\ UNCHANGED fails
+    /\ UNCHANGED <<fails, avail>>
 
-Next == Signal \/ FetchFuture \/ FetchFail \/ FetchOk
+Next == Signal \/ FetchFuture \/ FetchFail \/ FetchOk \/ Grow
 Spec == Init /\ [][Next]_vars
-LiveSpec == Spec /\ WF_vars(Signal) /\ WF_vars(FetchOk) /\ WF_vars(FetchFuture)
+LiveSpec == Spec /\ WF_vars(Signal) /\ WF_vars(FetchOk) /\ WF_vars(FetchFuture) /\ WF_vars(Grow)
 
 \* C09
 CursorStepsByOne == [][cursor' \in {cursor, cursor + 1}]_vars
@@ -62,5 +72,6 @@ AdvanceOnlyAfterOk == [][cursor' = cursor + 1 => (cursor \in examined')]_vars
 NoSkip == \A h \in Heights : h < cursor => h \in examined
 AllGenuineEmitted == \A h \in examined : \A b \in Content[h] : Genuine(b) => b \in emitted
 RetrySame == [][(last[2] \in {"fail", "future"} /\ last' # last) => last'[1] = last[1]]_vars
+NeverAheadOfDA == cursor <= avail + 1
 EventuallyAll == <>(cursor = Last + 1)
 ==========================================================================
